@@ -1135,3 +1135,79 @@ def split_conditional_rebind_return(fn: ast.FunctionDef) -> int:
                     rewrite(h.body)
     rewrite(fn.body)
     return count
+
+
+def counting_loops_to_sum(fn: ast.FunctionDef) -> int:
+    """``n = 0`` / ``for p in ITER: if TEST: n += 1``  ->  ``n = sum(1 for p in ITER if TEST)`` (adjacent statements of one block, the
+    loop body being exactly that ``if`` without ``else``, ``n`` a plain local)."""
+    count = 0
+
+    def rewrite(block: t.List[ast.stmt]) -> None:
+        nonlocal count
+        i = 0
+        while i < len(block) - 1:
+            a, b = block[i], block[i + 1]
+            name = None
+            if isinstance(a, ast.Assign) and len(a.targets) == 1 and isinstance(a.targets[0], ast.Name) \
+                    and isinstance(a.value, ast.Constant) and a.value.value == 0 and not isinstance(a.value.value, bool):
+                name = a.targets[0].id
+            elif isinstance(a, ast.AnnAssign) and isinstance(a.target, ast.Name) and isinstance(a.value, ast.Constant) and a.value.value == 0:
+                name = a.target.id
+            if name and isinstance(b, ast.For) and not b.orelse and len(b.body) == 1 and isinstance(b.body[0], ast.If) and not b.body[0].orelse \
+                    and len(b.body[0].body) == 1 and isinstance(b.body[0].body[0], ast.AugAssign) and isinstance(b.body[0].body[0].op, ast.Add) \
+                    and isinstance(b.body[0].body[0].target, ast.Name) and b.body[0].body[0].target.id == name \
+                    and isinstance(b.body[0].body[0].value, ast.Constant) and b.body[0].body[0].value.value == 1:
+                gen = ast.GeneratorExp(elt=ast.Constant(value=1),
+                                       generators=[ast.comprehension(target=b.target, iter=b.iter, ifs=[b.body[0].test], is_async=0)])
+                new = ast.Assign(targets=[ast.Name(id=name, ctx=ast.Store())],
+                                 value=ast.Call(func=ast.Name(id='sum', ctx=ast.Load()), args=[gen], keywords=[]))
+                ast.copy_location(new, a)
+                ast.fix_missing_locations(new)
+                block[i:i + 2] = [new]
+                count += 1
+                continue
+            i += 1
+        for st in block:
+            if not isinstance(st, (ast.FunctionDef, ast.AsyncFunctionDef, ast.ClassDef)):
+                for fld in ('body', 'orelse', 'finalbody'):
+                    sub = getattr(st, fld, None)
+                    if isinstance(sub, list) and sub and isinstance(sub[0], ast.stmt):
+                        rewrite(sub)
+                for h in getattr(st, 'handlers', []) or []:
+                    rewrite(h.body)
+    rewrite(fn.body)
+    return count
+
+
+def fold_temporaries_into_return(fn: ast.FunctionDef) -> int:
+    """A function that is nothing but ``x = E1`` / ``y = E2`` / ``return R`` (each temporary assigned once, from a call-free expression)
+    returns R with the temporaries written out: ``no_default = A and B`` / ``return not no_default``  ->  ``return not (A and B)``."""
+    body = [s for s in fn.body if not (isinstance(s, ast.Expr) and isinstance(s.value, ast.Constant))]
+    if len(body) < 2 or not isinstance(body[-1], ast.Return) or body[-1].value is None:
+        return 0
+    names: t.List[str] = []
+    for s in body[:-1]:
+        if not (isinstance(s, ast.Assign) and len(s.targets) == 1 and isinstance(s.targets[0], ast.Name)):
+            return 0
+        if any(isinstance(x, (ast.Call, ast.Lambda, ast.NamedExpr, ast.Await, ast.Yield)) for x in ast.walk(s.value)):
+            return 0
+        names.append(s.targets[0].id)
+    if len(set(names)) != len(names):
+        return 0
+    import copy as _copy
+    env: t.Dict[str, ast.expr] = {}
+
+    class _Sub(ast.NodeTransformer):
+        def visit_Name(self, node: ast.Name) -> ast.AST:
+            if isinstance(node.ctx, ast.Load) and node.id in env:
+                return _copy.deepcopy(env[node.id])
+            return node
+    for s in body[:-1]:
+        a = t.cast(ast.Assign, s)
+        env[t.cast(ast.Name, a.targets[0]).id] = t.cast(ast.expr, _Sub().visit(_copy.deepcopy(a.value)))
+    ret = ast.Return(value=t.cast(ast.expr, _Sub().visit(_copy.deepcopy(body[-1].value))))
+    ast.copy_location(ret, body[-1])
+    ast.fix_missing_locations(ret)
+    docs = [s for s in fn.body if isinstance(s, ast.Expr) and isinstance(s.value, ast.Constant)]
+    fn.body = docs + [ret]
+    return 1
